@@ -8,6 +8,7 @@ is the one the property states, "whenever raw HTML is not passed through").
 import Comrak.Lemmas.HtmlTree
 import Comrak.Lemmas.HtmlLexBal
 import Comrak.Lemmas.HtmlLexFn
+import Comrak.Lemmas.HtmlLexTableTree
 namespace Comrak.C10
 open Comrak Bytes
 
@@ -114,15 +115,14 @@ theorem balanced_tokens_balanced_bytes (ts : List Tok) (ha : ts.all allowedTok =
     (hb : balanced ts = true) : balancedBytesCore (spell ts) = .ok () :=
   balancedBytesCore_spell ts ha hv hb
 
-/-- **C10 on bytes (partial: core oracle).** In safe mode (`unsafe_ = false`, so no raw HTML is
-    passed through) the *bytes* of the rendered document lex as complete tags, comments and text,
-    every end tag matches the innermost open start tag, nothing is left open, void elements are
-    self-closed and no other element is.  Hypotheses: `balShapeT` (C10), `treeSafe`, `NormSafe` and a
-    harmless `header_ids` prefix (C02).
-    MISSING relative to the run-time oracle `balancedBytes`: its two bookkeeping clauses (`<thead>` /
-    `<tbody>` at most once and directly under `<table>`; the footnote `<section>` at most once) are
-    not covered by this theorem; the second is `html_footnote_section_once_bytes` below, the first is
-    only checked by running `balancedBytes` on the real output. -/
+/-- **C10 on bytes, core oracle** (kept for reference; now SUBSUMED by `html_balanced_bytes` below via
+    `balancedBytes_imp_core`).  In safe mode (`unsafe_ = false`, so no raw HTML is passed through) the
+    *bytes* of the rendered document lex as complete tags, comments and text, every end tag matches the
+    innermost open start tag, nothing is left open, void elements are self-closed and no other element
+    is.  Hypotheses: `balShapeT` (C10), `treeSafe`, `NormSafe` and a harmless `header_ids` prefix (C02).
+    Relative to the run-time oracle `balancedBytes` this statement lacks its two bookkeeping clauses
+    (`<thead>` / `<tbody>` at most once and directly under `<table>`; the footnote `<section>` at most
+    once); the full oracle is `html_balanced_bytes`. -/
 theorem html_balanced_bytes_partial (o : HtmlOpts) (nt : NormTable) (t : Tree)
     (hb : balShapeT none t = true) (hu : o.unsafe_ = false)
     (hp : ∀ p, o.headerIds = some p → litSafe p = true) (hn : NormSafe nt) (ht : treeSafe t = true) :
@@ -132,14 +132,49 @@ theorem html_balanced_bytes_partial (o : HtmlOpts) (nt : NormTable) (t : Tree)
 
 /-- **Footnote section at most once, on bytes** (the `footnotesTwice` clause of `balancedBytes`,
     which does not depend on the tag stack): in safe mode the rendered bytes lex, and the lexed tokens
-    contain at most one `<section class="footnotes" ...>` start tag.  With
-    `html_balanced_bytes_partial` this leaves exactly one clause of the oracle unproved at byte
-    level: `<thead>`/`<tbody>` at most once and directly under `<table>`. -/
+    contain at most one `<section class="footnotes" ...>` start tag.  (Also a consequence of
+    `html_balanced_bytes`; this form needs no shape hypothesis.) -/
 theorem html_footnote_section_once_bytes (o : HtmlOpts) (nt : NormTable) (t : Tree) (hu : o.unsafe_ = false)
     (hp : ∀ p, o.headerIds = some p → litSafe p = true) (hn : NormSafe nt) (ht : treeSafe t = true) :
     ∃ l, lexHtml (renderHtml o nt t) = some l ∧ l.countP isFnSecL ≤ 1 := by
   obtain ⟨l, h1, h2⟩ := lex_spell_fnCount _ (renderToks_allowed o hu hp nt hn t ht)
   exact ⟨l, h1, by rw [h2]; exact renderToks_fnCount o nt t⟩
+
+/-! ### The full byte-level oracle
+
+`runO` is the stack discipline of `balStep` (entries carry the `<thead>`/`<tbody>`-seen flags of a
+`<table>`) on the abstract tag events of model tokens. -/
+
+/-- **Table sections, token level**: run against the *flagged* tag stack of the oracle, the tag events
+    of the rendered document succeed and leave nothing open: every `<thead>` / `<tbody>` start tag is
+    written directly under a `<table>` and at most once per table, every end tag matches the innermost
+    open element.  All options, every tree with `balShapeT` (rows only under tables, the header row
+    first and unique - the same hypothesis as `html_balanced`). -/
+theorem html_table_sections (o : HtmlOpts) (nt : NormTable) (t : Tree) (h : balShapeT none t = true) :
+    runO [] (events (renderToks o nt t)) = some [] :=
+  renderToks_runO o nt t h
+
+/-- From the flagged token-level machine to the full byte oracle, for any allowed, void-respecting
+    token list with at most one footnote-section start tag. -/
+theorem flagged_tokens_balanced_bytes (ts : List Tok) (ha : ts.all allowedTok = true) (hv : ts.all voidOk = true)
+    (hf : fnCount ts ≤ 1) (hr : runO [] (events ts) = some []) : balancedBytes (spell ts) = .ok () := by
+  unfold balancedBytes
+  rw [Comrak.lex_spell ts ha]
+  exact balLoop_of_runO ts [] 0 [] hv (by omega) hr
+
+/-- **C10 on bytes, full oracle.**  In safe mode (`unsafe_ = false`, so no raw HTML is passed
+    through) the *bytes* of the rendered document pass the complete run-time oracle `balancedBytes`:
+    they lex as complete tags, comments and text; every end tag matches the innermost open start tag
+    and nothing is left open; void elements are self-closed and no other element is; `<thead>` and
+    `<tbody>` occur only directly under `<table>` and at most once per table; the footnote
+    `<section>` is opened at most once.  Same hypotheses as `html_balanced_bytes_partial`:
+    `balShapeT` (C10), `treeSafe`, `NormSafe` and a harmless `header_ids` prefix (C02). -/
+theorem html_balanced_bytes (o : HtmlOpts) (nt : NormTable) (t : Tree)
+    (hb : balShapeT none t = true) (hu : o.unsafe_ = false)
+    (hp : ∀ p, o.headerIds = some p → litSafe p = true) (hn : NormSafe nt) (ht : treeSafe t = true) :
+    balancedBytes (renderHtml o nt t) = .ok () :=
+  flagged_tokens_balanced_bytes _ (renderToks_allowed o hu hp nt hn t ht) (renderToks_void o nt t)
+    (renderToks_fnCount o nt t) (renderToks_runO o nt t hb)
 
 /-! Non-vacuity: a concrete shape-respecting tree with a two-row table and a footnote. -/
 def sampleTree : Tree :=
@@ -154,5 +189,22 @@ example : (events (renderToks {} {} sampleTree)).length > 20 := by decide
 example : treeSafe sampleTree = true := by decide
 example : fnCount (renderToks {} {} sampleTree) = 1 := by decide +kernel
 example : (match balancedBytes (renderHtml {} {} sampleTree) with | .ok _ => true | .error _ => false) = true := by decide +kernel
+
+/-- The hypotheses of `html_balanced_bytes` are satisfiable (two-row table + footnote). -/
+example : balancedBytes (renderHtml {} {} sampleTree) = .ok () :=
+  html_balanced_bytes {} {} sampleTree (by decide) rfl (by intro p h; cases h) normSafe_empty (by decide)
+
+/-- The table part of `balShapeT` is needed: a table whose second row is another header row is
+    rejected by the oracle (`<thead>` twice). -/
+def twoHeaders : Tree :=
+  .node .document {} (.cons
+    (.node (.table [.left] 1 2 2) {} (.cons
+      (.node (.tableRow true) {} (.cons (.node .tableCell {} .nil) .nil)) (.cons
+      (.node (.tableRow true) {} (.cons (.node .tableCell {} .nil) .nil)) .nil))) .nil)
+
+theorem html_balanced_bytes_needs_shape :
+    balShapeT none twoHeaders = false ∧
+    (match balancedBytes (renderHtml {} {} twoHeaders) with | .error (.sectionTwice _) => true | _ => false) = true := by
+  decide +kernel
 
 end Comrak.C10
